@@ -579,7 +579,13 @@ BankSend(a, b, n) ==
 (* bindings their deposits.  params.lax remembers that the minimum collateral was raised in  *)
 (* this history, after which bindings made earlier may lawfully sit below it.                *)
 
-CanSetParams(p) == phase = "deliver"
+\* (the module's parameter validators: positive timeout bound, multiple and periods, a well-formed minimum
+\* deposit, a slash fraction in [0, 1], a tax in [0, 1))
+CanSetParams(p) ==
+    /\ phase = "deliver"
+    /\ p.maxTimeout > 0 /\ p.multiple > 0 /\ p.minDeposit >= 0 /\ p.refundDelay >= 2
+    /\ p.slash >= 0 /\ p.slash <= FScale
+    /\ p.tax >= 0 /\ p.tax < FScale
 
 SetParams(p) ==
     /\ CanSetParams(p)
